@@ -28,11 +28,11 @@ ASSUMPTIONS = ['CPython reference counting frees dropped diagrams immediately (g
                'links; weak parent sets are checked to contain exactly the live parents']
 BUDGET = {'quick': 900, 'thorough': 5400}
 
-VARS = ['a', 'b', 'c']
-MENU2 = ['a', 'b', '~a', 'a & b', 'a | b', '(a & ~b) | (~a & b)', '0', '1', 'a and b and not a',
-         'a or not b or 0']
-MENU3 = MENU2 + ['c', '(a & b) | c', '(a | b) & ~c', 'b & c', '(a & c) | (~a & b)', 'a and b and c',
-                 'a or b or c or not a']
+VARS = ['x1', 'x2', 'x3']   # multi-character names: equal strings need not be identical objects
+MENU2 = ['x1', 'x2', '~x1', 'x1 & x2', 'x1 | x2', '(x1 & ~x2) | (~x1 & x2)', '0', '1', 'x1 and x2 and not x1',
+         'x1 or not x2 or 0']
+MENU3 = MENU2 + ['x3', '(x1 & x2) | x3', '(x1 | x2) & ~x3', 'x2 & x3', '(x1 & x3) | (~x1 & x2)', 'x1 and x2 and x3',
+                 'x1 or x2 or x3 or not x1']
 
 
 def configs(tier):
@@ -42,13 +42,13 @@ def configs(tier):
     for o in itertools.permutations(VARS[:3]):
         cfg.append({'nv': 3, 'ns': 2, 'order': list(o), 'depth': 3 if tier == 'quick' else 4,
                     'gc_free': False})
-    cfg.append({'nv': 2, 'ns': 2, 'order': ['a', 'b'], 'depth': 99, 'gc_free': True})
+    cfg.append({'nv': 2, 'ns': 2, 'order': list(VARS[:2]), 'depth': 99, 'gc_free': True})
     if tier == 'quick':
-        cfg.append({'nv': 2, 'ns': 3, 'order': ['a', 'b'], 'depth': 3, 'gc_free': False})
+        cfg.append({'nv': 2, 'ns': 3, 'order': list(VARS[:2]), 'depth': 3, 'gc_free': False})
     else:
-        cfg.append({'nv': 2, 'ns': 3, 'order': ['a', 'b'], 'depth': 4, 'gc_free': False})
-        cfg.append({'nv': 2, 'ns': 3, 'order': ['b', 'a'], 'depth': 4, 'gc_free': False})
-        cfg.append({'nv': 3, 'ns': 2, 'order': ['a', 'b', 'c'], 'depth': 3, 'gc_free': True})
+        cfg.append({'nv': 2, 'ns': 3, 'order': list(VARS[:2]), 'depth': 4, 'gc_free': False})
+        cfg.append({'nv': 2, 'ns': 3, 'order': list(VARS[:2])[::-1], 'depth': 4, 'gc_free': False})
+        cfg.append({'nv': 3, 'ns': 2, 'order': list(VARS[:3]), 'depth': 3, 'gc_free': True})
     return cfg
 
 
@@ -78,7 +78,12 @@ def ops_for(nv, ns):
             for j in range(ns):
                 for op in '&|^':
                     ops.append(('apply', i, op, j, k))
+        for v in V:
+            # a literal node built through the documented BDDNode constructor, the variable name being an
+            # equal but freshly built string object
+            ops.append(('mknode', i, v))
     ops.append(('gc',))
+    ops.append(('failing',))
     return ops
 
 
@@ -110,6 +115,26 @@ class World(object):
         if k == 'gc':
             gc.collect()
             return True
+        if k == 'mknode':
+            name = ''.join(list(op[2]) + [])          # new str object, equal to the variable name
+            name = (name + '_')[:-1]
+            slots[op[1]] = OBDD(BDDNode(name, BDDNode(0), BDDNode(1)), list(self.order))
+            model[op[1]] = self.exprs[op[2]]
+            return True
+        if k == 'failing':
+            # operations that must raise and leave the store as it was
+            other = list(self.order)[::-1] + ['zz']
+            v0 = self.V[0]
+            for bad in (lambda: OBDD('zz & ' + v0, list(self.order)), lambda: OBDD(v0 + ' +', list(self.order)),
+                        lambda: OBDD(v0, list(self.order)) & OBDD(v0, other),
+                        lambda: OBDD(v0, list(self.order)).restrict(3, True)):
+                try:
+                    bad()
+                except Exception:
+                    pass
+                else:
+                    raise AssertionError('an ill-formed BDD operation did not raise')
+            return True
         if slots[op[1]] is None:
             return False
         if k == 'drop':
@@ -129,7 +154,8 @@ class World(object):
             model[op[3]] = self.tt.cofactor(model[op[1]], tv, 0 if op[2] == 'low' else 1)
             return True
         if k == 'restrict':
-            slots[op[4]] = slots[op[1]].restrict(op[2], op[3])
+            vname = (op[2] + '_')[:-1]
+            slots[op[4]] = slots[op[1]].restrict(vname, op[3])
             model[op[4]] = self.tt.cofactor(model[op[1]], op[2], op[3])
             return True
         if k == 'apply':
